@@ -1,6 +1,7 @@
 import DmrVerif.Driver.Loop
 import DmrVerif.Driver.Hytera
+import DmrVerif.Driver.TranslHytera
 
-/-! model driver for property C12 -/
+/-! model driver for property C12 (`t.hy.*`: the checksum functions translated from the source, `Gen/TranslHytera.lean`) -/
 
-def main : IO Unit := Dmr.Driver.runMain [Dmr.Driver.Hytera.hyteraOp]
+def main : IO Unit := Dmr.Driver.runMain [Dmr.Driver.Hytera.hyteraOp, Dmr.Driver.translHyteraOp]
